@@ -524,6 +524,10 @@ def io_rules(ctx, chk, facts, prog):
                         continue
                     if pb in (0, 1) and ((vav.m1 >> i) & 1 == pb) and (((vav.m1 | vav.m0) >> i) & 1):
                         continue
+                    # the structural provenance does not see it: decide (read & mask) == (written & mask) bit-precisely
+                    from ..affine import equal_mod as _eq
+                    if _eq(O(8, 'and', r2.ret, C(8, mask_)), O(8, 'and', v, C(8, mask_)), env, 8):
+                        break
                     bad = 'bit %d of %s does not read back as written (read bit is %s)' % (i, name, pb)
                     break
                 if bad:
